@@ -448,6 +448,18 @@ func checkMain(args []string) int {
 			}
 		}
 	}
+	engineFailed := map[string]bool{}
+	for _, j := range jobs {
+		for _, f := range j.Fails {
+			engineFailed[f.Harness+"|"+f.ID] = true
+		}
+		for _, f := range j.AllocEvents {
+			engineFailed[f.Harness+"|"+f.ID] = true
+		}
+		for _, f := range j.Panics {
+			engineFailed[f.Harness+"|"+f.ID] = true
+		}
+	}
 	unreproduced := 0
 	var violations []*interp.Witness
 	knownSeen := map[string]*interp.Witness{}
@@ -473,6 +485,14 @@ func checkMain(args []string) int {
 				validated++
 			} else {
 				inconclusive = append(inconclusive, fmt.Sprintf("%s: reachability witness %q not reproduced natively (panic=%q skipped=%v)", w.Harness, w.ID, firstLine(r.Panic), r.Skipped))
+			}
+			// the other direction: an assertion that fails natively on this input
+			// although no path of the engine ever failed it means the engine (a
+			// model, a stub, the encoding) disagrees with the real build
+			for _, f := range r.Fails {
+				if !engineFailed[w.Harness+"|"+f.ID] {
+					inconclusive = append(inconclusive, fmt.Sprintf("%s: assertion %q fails natively on the input of reachability witness %q but never in the engine: engine model or encoding is wrong here", w.Harness, f.ID, w.ID))
+				}
 			}
 		case "panic":
 			if r.Panic != "" {
